@@ -24,6 +24,9 @@ fn near_misses(v: &str) -> Vec<String> {
         cs[m] = if cs[m] == 'l' { '1' } else { 'l' };
     }
     out.push(cs.into_iter().collect());
+    // equal after trimming / case folding only
+    out.push(format!("{} ", v));
+    out.push(format!(" {}", v));
     out
 }
 
@@ -81,19 +84,19 @@ pub fn run(ctx: &Ctx) -> Report {
     let n_inst = if thorough { instants.len() } else { 3 } as u64;
 
     // (1) five-part credentials: date x region x service x terminator near-misses
-    let total1 = n_serv * n_inst * 12 * 8 * 8 * 8 * 2 * 2;
+    let total1 = n_serv * n_inst * 12 * 10 * 10 * 10 * 2 * 2;
     let mut st = par_sweep(total1, |i, st| {
         let mut x = i;
         let carrier = if x % 2 == 0 { Carrier::Header } else { Carrier::Query };
         x /= 2;
         let mode_a = x % 2 == 0;
         x /= 2;
-        let ti = (x % 8) as usize;
-        x /= 8;
-        let si = (x % 8) as usize;
-        x /= 8;
-        let ri = (x % 8) as usize;
-        x /= 8;
+        let ti = (x % 10) as usize;
+        x /= 10;
+        let si = (x % 10) as usize;
+        x /= 10;
+        let ri = (x % 10) as usize;
+        x /= 10;
         let di = (x % 12) as usize;
         x /= 12;
         // quick tier picks the instants with a date subtlety first
@@ -229,7 +232,7 @@ pub fn run(ctx: &Ctx) -> Report {
     Report {
         stats: st,
         rule: format!(
-            "(1) five-part credentials: 12 date variants (exact, -1 day, +1 day, 7 digits, trailing space, extended, empty, written-local date, and the numerically equal spellings +D, 0D, 00D, D.0) x 8 near-misses each of region, service and terminator (exact, prefix, suffix, x+v, v+x, UPPER, empty, look-alike) x {} server (region, service) pairs x {} request instants (incl. 23:59:59Z, 00:00:00Z and offsets whose UTC date differs from the written date) x signing mode A (correctly signed under the credential's own scope; provider returns that key unconditionally) / B (signed under the server's scope) x carrier; (2) credentials of 1..8 parts, with leading/trailing/double slashes, empty access key and no slash at all; (3) every sequence of 1..3 validations on one thread over 32 symbols (4 server configurations x credential scoped for any of the 4 x carrier): each judged as if it were alone. Oracle: reference verifier (Ok iff all five parts right; arity => IncompleteSignature/400; other mismatch => SignatureDoesNotMatch/403 also in mode A; provider asked iff scope fully correct, with (access key, token, UTC date, server region, server service)). states = distinct (stage, kind, provider ask)",
+            "(1) five-part credentials: 12 date variants (exact, -1 day, +1 day, 7 digits, trailing space, extended, empty, written-local date, and the numerically equal spellings +D, 0D, 00D, D.0) x 10 near-misses each of region, service and terminator (exact, prefix, suffix, x+v, v+x, UPPER, empty, look-alike, trailing blank, leading blank) x {} server (region, service) pairs x {} request instants (incl. 23:59:59Z, 00:00:00Z and offsets whose UTC date differs from the written date) x signing mode A (correctly signed under the credential's own scope; provider returns that key unconditionally) / B (signed under the server's scope) x carrier; (2) credentials of 1..8 parts, with leading/trailing/double slashes, empty access key and no slash at all; (3) every sequence of 1..3 validations on one thread over 32 symbols (4 server configurations x credential scoped for any of the 4 x carrier): each judged as if it were alone. Oracle: reference verifier (Ok iff all five parts right; arity => IncompleteSignature/400; other mismatch => SignatureDoesNotMatch/403 also in mode A; provider asked iff scope fully correct, with (access key, token, UTC date, server region, server service)). states = distinct (stage, kind, provider ask)",
             n_serv, n_inst
         ),
         bounds: json!({"servers": n_serv, "instants": n_inst, "cases": total1 + total2}),
